@@ -568,12 +568,45 @@ def check_cofone(res, facts):
         (rule.bad if problems else rule.ok)(key, "; ".join(problems) if problems else "limb 0 == 1 and all limbs from 1 are zero", fn.loc)
 
 
+def check_endoinf(res, facts):
+    """the affine endomorphism helpers behind the fast subgroup tests / cofactor clearing map the identity to the
+    identity: they act on the coordinates of a COPY of their argument (so the infinity flag is carried over); a helper
+    that builds a fresh point (new_unchecked / new) without looking at the flag turns the identity into the finite
+    pseudo-point (0, 0)"""
+    rule = res.rule("R-ENDOINF", "affine endomorphism helpers preserve the point at infinity", 6)
+    AFF = "ark_ec::models::short_weierstrass::affine::Affine"
+    for unit in UNITS:
+        for f in facts.fns(unit=unit):
+            if f.kind == "Closure" or "endomorphism" not in f.name or f.crate == "ark_ec" or "::tests" in f.id:
+                continue
+            if not f.local_ty(0).startswith(AFF):
+                continue
+            key = "%s|%s" % (f.crate, f.id[-70:])
+            fresh = [t["f"].get("name") for _, t in f.calls() if t["f"].get("name") in ("new_unchecked", "new") and (t["f"].get("self_head") or t["f"].get("self") or "").startswith(AFF)]
+            fresh += ["struct literal" for _, _, s_ in f.stmts() if s_.get("r", {}).get("k") == "agg" and s_["r"].get("adt") == AFF]
+            guards = []
+            for b in f.bbs:
+                if b["t"]["k"] == "switch":
+                    guards.append(DF.show(DF.expr(f, b["t"]["o"], depth=10)))
+            guarded = any("infinity" in g or "is_zero(arg1" in g or "is_zero(" in g and "arg1)" in g for g in guards)
+            ret = DF.expr(f, {"c": 0}, depth=10)
+            if fresh and not guarded:
+                rule.bad(key, "builds its result with %s without testing the argument's infinity flag: the image of the identity is the finite pseudo-point (psi(O) = (0, 0)), so the endomorphism-based subgroup test rejects the identity and cofactor clearing of the identity leaves the curve" % sorted(set(fresh)), f.loc)
+            elif ret[0] in ("arg", "phi"):
+                rule.ok(key, "acts on a copy of its argument (flag carried over)", f.loc)
+            elif fresh and guarded:
+                rule.ok(key, "fresh point under an identity guard", f.loc)
+            else:
+                rule.undecided(key, "result is %s" % DF.show(ret)[:80], f.loc)
+
+
 def run(ctx, res):
     facts = ctx.facts(UNITS)
     res.analysed = facts.stats()
     reg = Registry(facts, UNITS)
     check_default(res, facts)
     check_cofone(res, facts)
+    check_endoinf(res, facts)
     check_overrides(res, facts, reg)
     # curve table (as in C16) for the numeric discharge
     from rules import c16_curves
